@@ -89,9 +89,9 @@ def coverage (x : IState) : String :=
     let ds := dedup all
     let ex' := if (lookup s.blobs (idxName ds)).isSome then ex + 1 else ex
     let va' := if (lookupResp c.respOf kv.1).map (·.dig) ≠ (lookupResp p.respOf kv.1).map (·.dig) then va + 1 else va
-    (regenStep c.respOf s kv, ex', (if old.isEmpty then merged else merged + 1), dd + (all.length - ds.length), va'))
+    (regenStep idxName c.respOf s kv, ex', (if old.isEmpty then merged else merged + 1), dd + (all.length - ds.length), va'))
     ({ x with index := c.index }, 0, 0, 0, 0)
-  let o := ingest id x
+  let o := ingest idxName id x
   let rec iters (fuel : Nat) (a : Scan) (n nested : Nat) : Nat × Nat :=
     match fuel with
     | 0 => (n, nested)
@@ -108,34 +108,34 @@ def coverage (x : IState) : String :=
 
 def runIngest (df : Def) (store : String) : String :=
   let x := df.st
-  let o := ingest id x
+  let o := ingest idxName id x
   let disk := if store = "dir" ∧ ingestMod x then persist o else x
   let line := observe df store o disk
   -- the observation must not depend on the order in which the regenerated responses are inserted
-  let o' := ingest List.reverse x
+  let o' := ingest idxName List.reverse x
   let line' := observe df store o' (if store = "dir" ∧ ingestMod x then persist o' else x)
   (if line = line' then line else line ++ " ORDER-DEPENDENT[" ++ line' ++ "]") ++ " #cov " ++ coverage x
 
 def runReopen (df : Def) (store : String) : String :=
   let x := df.st
-  let o1 := ingest id x
+  let o1 := ingest idxName id x
   if store = "dir" then
     let x2 := if ingestMod x then persist o1 else { x with blobs := o1.blobs }
-    let o2 := ingest id x2
+    let o2 := ingest idxName id x2
     observe df store o2 x2
   else
-    observe df store (ingest id x) x
+    observe df store (ingest idxName id x) x
 
 def runCrash (df : Def) (store : String) (mask : Nat) : String :=
   let x := df.st
-  let o1 := ingest id x
+  let o1 := ingest idxName id x
   let nb := o1.blobs.drop x.blobs.length
   let names := sortSS (nb.map (·.1))
   let m := mask % (2 ^ names.length)
   let chosen := (List.range names.length).filter (fun i => (m / 2 ^ i) % 2 = 1) |>.filterMap (fun i => names[i]?)
   let pre := chosen.filterMap fun n => nb.find? (·.1 = n)
   let x' := { x with blobs := x.blobs ++ pre }
-  let o := ingest id x'
+  let o := ingest idxName id x'
   let disk := if store = "dir" ∧ ingestMod x then persist o else x
   observe df store o disk
 
